@@ -639,6 +639,20 @@ def nonempty_guard(f: Func, node: ast.AST) -> t.Tuple[bool, str]:
     for c, pol in atoms:
         if unparse(c) in (b, bp) and pol and unparse(lo_e) in ("0", ""):
             return True, f"dominated by 'if not {b}: raise'"
+    # the index is the variable of `for i in range(len(v))` / `range(k, len(v))` / `for i, x in enumerate(v)`
+    if isinstance(lo_e, ast.Name):
+        for loop in [x for x in body_nodes(f.node) if isinstance(x, ast.For) and any(y is node for y in ast.walk(x))]:
+            it = loop.iter
+            tg = loop.target
+            rebound = any(isinstance(x, ast.Name) and x.id in (lo_e.id, b) and isinstance(x.ctx, ast.Store) for s_ in loop.body for x in ast.walk(s_))
+            if rebound:
+                continue
+            if isinstance(tg, ast.Name) and tg.id == lo_e.id and isinstance(it, ast.Call) and unparse(it.func) == "range" and 1 <= len(it.args) <= 2 and unparse(it.args[-1]) == f"len({b})":
+                okl, lo0 = (True, 0) if len(it.args) == 1 else (isinstance(it.args[0], ast.Constant) and isinstance(it.args[0].value, int) and it.args[0].value >= 0, 0)
+                if okl:
+                    return True, f"{lo_e.id} runs over range(len({b}))"
+            if isinstance(tg, ast.Tuple) and len(tg.elts) == 2 and unparse(tg.elts[0]) == lo_e.id and isinstance(it, ast.Call) and unparse(it.func) == "enumerate" and len(it.args) == 1 and not it.keywords and unparse(it.args[0]) == b:
+                return True, f"{lo_e.id} is the enumerate index of {b}"
     facts = ge0_facts(atoms)
     for bx in (b, bp):
         ln = ast.parse(f"len({bx})", mode="eval").body
@@ -651,80 +665,120 @@ def nonempty_guard(f: Func, node: ast.AST) -> t.Tuple[bool, str]:
 # ------------------------------------------------------------------------- O5
 def integer_shortcuts(repo: Repo, chk: Check) -> None:
     """A `value.to_bytes(W, ...)` inside the INTEGER writer encodes content octets without the octet loop.  The reader
-    takes the content as big-endian two's complement, so for the values that reach the call (dominating guards on the
-    parameter) W must leave room for the sign bit: 8 * W >= bit_length + 1, the order must be big, and without a guard
-    value >= 0 the call must be signed.  W is an arithmetic expression in value.bit_length(): it is evaluated for every
-    bit length from the guard's minimum to 4096 (a table over a finite domain, not a run of the package)."""
-    from .util import atoms_at, prov_text
-    from sa.flow import prov_ast
+    takes the content as big-endian two's complement, so on every path through such a call W must leave room for the
+    sign bit and (DER) be minimal.  Decided per path summary: W is an arithmetic expression over the parameter (its
+    bit_length, the bit_length of -value - 1, ...); it is evaluated on a table of boundary values - 0, -1 and
+    +-2^k, +-(2^k - 1), +-(2^k + 1) for k up to 4096, i.e. the smallest and largest number of every bit length - restricted
+    to those the path's own guards on the parameter admit.  (A table over a finite domain, not a run of the package.)"""
+    from sa.pathsum import Summary
+    from .util import recv_of
 
     f = repo.func("_asn1._pack_asn1_integer")
     chk.analysed(f)
     vparam = f.params[0]
-    for n in body_nodes(f.node):
-        if not (isinstance(n, ast.Call) and isinstance(n.func, ast.Attribute) and n.func.attr == "to_bytes"):
-            continue
-        recv = prov_text(f, n.func.value, n)
-        if recv != vparam:
-            continue  # the width of another quantity (a digit, a length)
-        site = Site.of(f, n)
-        lo: t.Optional[int] = None
-        for e, pol in atoms_at(f, n):
-            if isinstance(e, ast.Compare) and len(e.ops) == 1:
-                okc, c = repo.try_fold(e.comparators[0], f.mod)
-                okl, l_ = repo.try_fold(e.left, f.mod)
-                op = type(e.ops[0])
-                if unparse(e.left) == vparam and okc and isinstance(c, int):
-                    b = {(ast.Gt, True): c + 1, (ast.GtE, True): c, (ast.Lt, False): c, (ast.LtE, False): c + 1}.get((op, pol))
-                elif unparse(e.comparators[0]) == vparam and okl and isinstance(l_, int):
-                    b = {(ast.Lt, True): l_ + 1, (ast.LtE, True): l_, (ast.Gt, False): l_, (ast.GtE, False): l_ + 1}.get((op, pol))
-                else:
-                    b = None
-                if b is not None:
-                    lo = b if lo is None else max(lo, b)
-        kw = {k.arg: k.value for k in n.keywords if k.arg}
-        order = repo.try_fold(kw.get("byteorder") or (n.args[1] if len(n.args) > 1 else ast.Constant(value="big")), f.mod)
-        signed = repo.try_fold(kw.get("signed") or ast.Constant(value=False), f.mod)
-        warg = kw.get("length") or (n.args[0] if n.args else None)
-        if warg is None or not order[0] or not signed[0]:
-            raise AnalysisError(f"{f.qual}:{n.lineno}: to_bytes call outside the idiom table: {unparse(n)[:60]}")
-        wtree = prov_ast(ReachingDefs(f), warg, n)
+    samples = [0, -1]
+    for k in range(0, 4097):
+        for v_ in (1 << k, (1 << k) - 1, (1 << k) + 1):
+            samples += [v_, -v_]
+    samples = sorted(set(samples))
 
-        def width(bl: int) -> int:
-            def ev(x: ast.expr) -> int:
-                if isinstance(x, ast.Constant) and isinstance(x.value, int):
-                    return int(x.value)
-                if isinstance(x, ast.Call) and isinstance(x.func, ast.Attribute) and x.func.attr == "bit_length" and not x.args and unparse(x.func.value) == vparam:
-                    return bl
-                if isinstance(x, ast.BinOp):
-                    a, b_ = ev(x.left), ev(x.right)
-                    ops: t.Dict[t.Any, t.Callable[[int, int], int]] = {ast.Add: lambda p, q: p + q, ast.Sub: lambda p, q: p - q, ast.Mult: lambda p, q: p * q, ast.FloorDiv: lambda p, q: p // q, ast.Mod: lambda p, q: p % q, ast.RShift: lambda p, q: p >> q, ast.LShift: lambda p, q: p << q}
-                    if type(x.op) in ops:
-                        return ops[type(x.op)](a, b_)
-                if isinstance(x, ast.Call) and unparse(x.func) in ("max", "min") and x.args and not x.keywords:
-                    return (max if unparse(x.func) == "max" else min)(ev(a_) for a_ in x.args)
-                ok_, v_ = repo.try_fold(x, f.mod)
-                if ok_ and isinstance(v_, int):
-                    return int(v_)
-                raise AnalysisError(f"{f.qual}:{n.lineno}: width expression {unparse(warg)} is not arithmetic in {vparam}.bit_length()")
+    class Undecided(Exception):
+        pass
 
-            return ev(wtree)
+    def ev(x: ast.AST, v: int) -> t.Any:
+        if isinstance(x, ast.Constant) and isinstance(x.value, (int, bool)):
+            return x.value
+        if isinstance(x, ast.Name) and x.id == vparam:
+            return v
+        if isinstance(x, ast.UnaryOp) and isinstance(x.op, ast.USub):
+            return -ev(x.operand, v)
+        if isinstance(x, ast.UnaryOp) and isinstance(x.op, ast.Invert):
+            return ~ev(x.operand, v)
+        if isinstance(x, ast.UnaryOp) and isinstance(x.op, ast.Not):
+            return not ev(x.operand, v)
+        if isinstance(x, ast.Call) and isinstance(x.func, ast.Attribute) and x.func.attr == "bit_length" and not x.args:
+            return int(ev(x.func.value, v)).bit_length()
+        if isinstance(x, ast.Call) and isinstance(x.func, ast.Name) and x.func.id in ("max", "min", "abs") and x.args and not x.keywords:
+            vals = [ev(a_, v) for a_ in x.args]
+            return abs(vals[0]) if x.func.id == "abs" else (max(vals) if x.func.id == "max" else min(vals))
+        if isinstance(x, ast.Call) and repo.dotted(x.func, f.mod) == "math.ceil" and len(x.args) == 1 and isinstance(x.args[0], ast.BinOp) and isinstance(x.args[0].op, ast.Div):
+            p_, q_ = ev(x.args[0].left, v), ev(x.args[0].right, v)
+            return -((-p_) // q_)
+        if isinstance(x, ast.BinOp):
+            p_, q_ = ev(x.left, v), ev(x.right, v)
+            ops: t.Dict[t.Any, t.Callable[[int, int], int]] = {ast.Add: lambda m, n: m + n, ast.Sub: lambda m, n: m - n, ast.Mult: lambda m, n: m * n, ast.FloorDiv: lambda m, n: m // n, ast.Mod: lambda m, n: m % n, ast.RShift: lambda m, n: m >> n, ast.LShift: lambda m, n: m << n, ast.BitAnd: lambda m, n: m & n, ast.BitOr: lambda m, n: m | n}
+            if type(x.op) in ops:
+                return ops[type(x.op)](p_, q_)
+        if isinstance(x, ast.Compare) and len(x.ops) == 1:
+            p_, q_ = ev(x.left, v), ev(x.comparators[0], v)
+            cm: t.Dict[t.Any, t.Callable[[int, int], bool]] = {ast.Lt: lambda m, n: m < n, ast.LtE: lambda m, n: m <= n, ast.Gt: lambda m, n: m > n, ast.GtE: lambda m, n: m >= n, ast.Eq: lambda m, n: m == n, ast.NotEq: lambda m, n: m != n}
+            if type(x.ops[0]) in cm:
+                return cm[type(x.ops[0])](p_, q_)
+        if isinstance(x, ast.IfExp):
+            return ev(x.body, v) if ev(x.test, v) else ev(x.orelse, v)
+        if isinstance(x, ast.expr):
+            ok_, c_ = repo.try_fold(x, f.mod)
+            if ok_ and isinstance(c_, int):
+                return int(c_)
+        raise Undecided(unparse(x)[:60])
 
-        nonneg = lo is not None and lo >= 0
-        bl_min = lo.bit_length() if nonneg and lo is not None else 0
-        chk.count("integer shortcuts")
-        if order[1] != "big":
-            chk.ob("O4", site, False, f"INTEGER content written {order[1]}-endian: the reader decodes big-endian two's complement")
-            continue
-        if not nonneg and not signed[1]:
-            chk.ob("O4", site, False, f"{unparse(n)[:60]}: unsigned to_bytes of a value that can be negative here (OverflowError), no guard {vparam} >= 0 dominates it")
-            continue
-        bad = next((bl for bl in range(bl_min, 4097) if 8 * width(bl) < bl + 1), None)
-        okw = bad is None
-        chk.ob("O4", site, okw, f"8 * ({unparse(warg)}) > bit_length for every bit length {bl_min}..4096: the sign bit has room" if okw else f"content width {unparse(warg)} is {width(t.cast(int, bad))} octet(s) for a {bad} bit value: the top content bit is set, the reader (big-endian two's complement) returns a negative number for a positive {vparam}")
-        if okw and nonneg:
-            slack = next((bl for bl in range(max(bl_min, 1), 4097) if width(bl) != bl // 8 + 1), None)
-            chk.ob("O4", site, slack is None, "and it is the minimal number of content octets (DER)" if slack is None else f"{width(t.cast(int, slack))} content octets for a {slack} bit value where {t.cast(int, slack) // 8 + 1} suffice: not the minimal (DER) form")
+    seen: t.Set[t.Tuple[int, str]] = set()
+    for ps in Summary(f, prune=True).paths:
+        for c in ps.calls("to_bytes"):
+            call = t.cast(ast.Call, c.tree)
+            if ps.text(recv_of(call)) != vparam:
+                continue  # the width of another quantity (a digit, a length)
+            kw = {k.arg: k.value for k in call.keywords if k.arg}
+            warg = kw.get("length") or (call.args[0] if call.args else None)
+            order = repo.try_fold(kw.get("byteorder") or (call.args[1] if len(call.args) > 1 else ast.Constant(value="big")), f.mod)
+            signed = repo.try_fold(kw.get("signed") or ast.Constant(value=False), f.mod)
+            if warg is None or not order[0] or not signed[0]:
+                raise AnalysisError(f"{f.qual}:{getattr(c.node, 'lineno', 0)}: to_bytes call outside the idiom table: {ps.text(call)[:60]}")
+            guards = [(e, pol) for e, pol in ps.atoms() if any(isinstance(x, ast.Name) and x.id == vparam for x in ast.walk(e))]
+            key = (id(c.node), ps.text(warg) + "|" + "&".join(sorted(("" if p_ else "not ") + ps.text(e) for e, p_ in guards)))
+            if key in seen:
+                continue
+            seen.add(key)
+            site = Site.of(f, c.node)
+            chk.count("integer shortcuts")
+            if order[1] != "big":
+                chk.ob("O4", site, False, f"INTEGER content written {order[1]}-endian: the reader decodes big-endian two's complement")
+                continue
+            bad: t.Optional[str] = None
+            slack: t.Optional[str] = None
+            n_adm = 0
+            try:
+                for v in samples:
+                    adm = True
+                    for e, pol in guards:
+                        try:
+                            if bool(ev(e, v)) != pol:
+                                adm = False
+                                break
+                        except Undecided:
+                            continue  # a guard this table cannot read does not restrict the samples
+                    if not adm:
+                        continue
+                    n_adm += 1
+                    w = ev(warg, v)
+                    need = ((v.bit_length() if v >= 0 else (-v - 1).bit_length()) // 8) + 1
+                    if not signed[1] and v < 0:
+                        bad = f"unsigned to_bytes reached with the negative value {v if abs(v) < 1 << 40 else '-2^' + str((-v).bit_length() - 1) + '..'} (OverflowError)"
+                        break
+                    if w < need:
+                        shown = str(v) if abs(v) < 1 << 40 else ("2^" if v > 0 else "-2^") + str(abs(v).bit_length() - 1) + ".."
+                        bad = f"content width {ps.text(warg)} is {w} octet(s) for value {shown} ({abs(v).bit_length()} bits): {'the top content bit is set, the reader (big-endian two-s complement) returns a negative number' if v >= 0 and w * 8 >= v.bit_length() else 'the value does not fit'}"
+                        break
+                    if w > need and slack is None:
+                        shown = str(v) if abs(v) < 1 << 40 else ("2^" if v > 0 else "-2^") + str(abs(v).bit_length() - 1) + ".."
+                        slack = f"{w} content octets for value {shown} where {need} suffice: not the minimal (DER) form"
+            except Undecided as u:
+                raise AnalysisError(f"{f.qual}:{getattr(c.node, 'lineno', 0)}: width expression {ps.text(warg)[:60]} is not arithmetic over {vparam} ({u})")
+            if bad is not None:
+                chk.ob("O4", site, False, bad)
+                continue
+            chk.ob("O4", site, n_adm > 0, f"width {ps.text(warg)[:60]} leaves room for the sign bit on all {n_adm} boundary values this path admits" if n_adm else "no boundary value reaches this call: guards not understood")
+            chk.ob("O4", site, slack is None, "and it is the minimal number of content octets (DER)" if slack is None else slack)
 
 
 def nested_writers(repo: Repo, chk: Check) -> None:
@@ -737,13 +791,28 @@ def nested_writers(repo: Repo, chk: Check) -> None:
         chk.ob("O5", Site.of(m, rets[0] if rets else None, None if rets else mname), ok, "child writer bound to this writer and its tag" if ok else f"{mname} returns {unparse(rets[0].value) if rets else '?'}")
     ex = cls.methods["__exit__"]
     chk.analysed(ex)
-    packs = [n for n in body_nodes(ex.node) if isinstance(n, ast.Call) and unparse(n.func) == "_pack_asn1"]
-    ok = len(packs) == 1 and [unparse(a) for a in packs[0].args] == ["self._tag.tag_class", "self._tag.is_constructed", "self._tag.tag_number", "self._data"]
-    chk.ob("O5", Site.of(ex, packs[0] if packs else None, None if packs else "__exit__"), ok, "closing a child wraps its content in its own tag" if ok else "__exit__ does not wrap self._data with (tag_class, is_constructed, tag_number) of the child's tag")
-    ext = [n for n in body_nodes(ex.node) if isinstance(n, ast.Call) and unparse(n.func) == "self._parent._data.extend"]
-    rd = ReachingDefs(ex)
-    oke = len(ext) == 1 and isinstance(ext[0].args[0], ast.Name) and rd.single_def(ext[0].args[0].id, ext[0]) is not None and rd.single_def(ext[0].args[0].id, ext[0]).value is (packs[0] if packs else None)  # type: ignore[union-attr]
-    chk.ob("O5", Site.of(ex, ext[0] if ext else None, None if ext else "__exit__ append"), bool(oke), "appended to the parent exactly once" if oke else "the wrapped TLV is not appended to the parent's buffer exactly once")
+    from sa.pathsum import Summary
+    from .util import args_of
+
+    n_flush = 0
+    for ps in Summary(ex, prune=True).returning():
+        facts = ps.facts()
+        packs = ps.calls("_pack_asn1")
+        exts = [c for c in ps.calls("extend") if ps.text(t.cast(ast.Attribute, t.cast(ast.Call, c.tree).func).value) == "self._parent._data"]
+        child = "self._parent" in facts and "self._tag" in facts
+        site = Site.of(ex, packs[0].node if packs else ps.exit_node, None if (packs or ps.exit_node is not None) else "__exit__")
+        if not child:
+            ok0 = not exts
+            chk.ob("O5", Site.of(ex, ps.exit_node, None if ps.exit_node is not None else "__exit__ of a root writer"), ok0, "a writer without parent / tag flushes nothing" if ok0 else "a writer without parent or tag appends to a parent buffer")
+            continue
+        n_flush += 1
+        a = args_of(repo, ex, t.cast(ast.Call, packs[0].tree)) if len(packs) == 1 else {}
+        got = [ps.text(a.get(k)) for k in ("tag_class", "constructed", "tag_number", "data")]
+        ok = got == ["self._tag.tag_class", "self._tag.is_constructed", "self._tag.tag_number", "self._data"]
+        chk.ob("O5", site, ok, "closing a child wraps its content in its own tag" if ok else f"__exit__ does not wrap self._data with (tag_class, is_constructed, tag_number) of the child's tag: _pack_asn1 receives {got}")
+        oke = len(exts) == 1 and len(packs) == 1 and len(t.cast(ast.Call, exts[0].tree).args) == 1 and ps.key(t.cast(ast.Call, exts[0].tree).args[0]) == ps.key(packs[0].tree)
+        chk.ob("O5", Site.of(ex, exts[0].node if exts else None, None if exts else "__exit__ append"), bool(oke), "appended to the parent exactly once" if oke else "the wrapped TLV is not appended to the parent's buffer exactly once")
+    chk.ob("O5", Site.of(ex, construct="__exit__ of a child writer"), n_flush >= 1, "a path for child writers exists" if n_flush else "__exit__ has no path on which a child writer (parent and tag set) flushes")
     gd = cls.methods["get_data"]
     okg = any(isinstance(n, ast.If) and unparse(n.test) == "self._parent or self._tag" and any(isinstance(x, ast.Raise) for x in n.body) for n in body_nodes(gd.node))
     chk.ob("O5", Site.of(gd, construct="get_data refuses child writers"), okg, "only the root writer hands out data")
